@@ -35,6 +35,21 @@ class World(object):
         ta, tb = two_curves()
         self.t = {"c1": ta, "c2": tb}
         self.env = {k: ecd.ToyEnv.get(t) for k, t in self.t.items()}
+        # the remote key of c1 is chosen so that none of its encodings is a
+        # valid key on c2 (by the reference validation): offering c1's bytes
+        # to an object working on c2 must then be refused
+        from .c08 import CurveInfo
+        from .c09 import point_bytes
+        ci2 = CurveInfo.get(tb.rec())
+        d = D_REMOTE["c1"]
+        while True:
+            P = self.env["c1"].mult[d]
+            encs = [point_bytes(P[0], P[1], self.env["c1"].plen, e)
+                    for e in ("raw", "uncompressed", "compressed", "hybrid")]
+            if all(ci2.decode_ref(x)[0] == "reject" for x in encs):
+                break
+            d += 1
+        D_REMOTE["c1"] = d
         self.curve = {k: e.curve for k, e in self.env.items()}
         self.sk = {k: SigningKey.from_secret_exponent(D_LOCAL[k], self.curve[k])
                    for k in self.t}
@@ -149,10 +164,10 @@ def model_step(w, st, ev):
         if curve is None:
             return None           # left open by the property
         if curve != "c1":
-            # c1's encodings offered to an object working on c2: lengths are
-            # equal (2-byte fields); acceptance depends on c2's curve
-            # equation - left to C08; not offered
-            return None
+            # c1's encodings offered to an object working on c2: the remote
+            # key was chosen (World) so that the reference validation for c2
+            # rejects every encoding of it
+            return st, ("MalformedPointError",)
         if ev[2] in ("off-curve", "short"):
             return st, ("MalformedPointError",)
         return (curve, priv, ("c1", D_REMOTE["c1"])), ("ok", None)
